@@ -79,7 +79,7 @@ Ltac eofpos :=
 Ltac fin_dn :=
   first
   [ live
-  | match goal with H : emit_to _ _ _ _ ?st _ = Ok _ |- _ => apply (emit_to_dn _ _ _ _ ltac:(discriminate) H) end
+  | match goal with H : emit_to _ _ _ _ ?st _ = Ok _ |- _ => solve [eapply emit_to_dn; [|exact H]; discriminate] end
   | match goal with H : emit _ _ _ itemEOF _ = Ok _ |- _ => exact (emit_eof_dn _ _ H) end
   | match goal with H : errorf _ ?c _ = Ok _ |- _ => apply (errorf_dn_plain _ _ _ H); vm_compute; reflexivity end
   | match goal with H : errorf _ ?c _ = Ok _ |- _ => apply (errorf_dn _ _ _ H); intros _; eofpos end
@@ -177,15 +177,24 @@ Proof.
   - eapply lex_number_dn; exact H.
 Qed.
 
+Lemma run_S fuel st l : st <> LDone ->
+  run uni_letter uni_digit inp ilen base (S fuel) st l =
+  bind (step uni_letter uni_digit inp ilen base st l) (fun p => let '(st', l') := p in run uni_letter uni_digit inp ilen base fuel st' l').
+Proof. intros H. destruct st; try reflexivity. congruence. Qed.
+Lemma run_done fuel l : run uni_letter uni_digit inp ilen base fuel LDone l = Ok l.
+Proof. destruct fuel; reflexivity. Qed.
+
 Theorem run_at_cursor : forall fuel st l l', (st = LDone -> at_cursor l) ->
   run uni_letter uni_digit inp ilen base fuel st l = Ok l' -> at_cursor l'.
 Proof.
   induction fuel as [|f IH]; intros st l l' H0 Hr.
   - destruct st; cbn in Hr; try discriminate. inversion Hr; subst. apply H0; reflexivity.
-  - destruct st; try (cbn [run] in Hr;
-      match type of Hr with bind ?x _ = _ => destruct x as [[st' l1]| | | | |] eqn:Es end; cbn [bind] in Hr; try discriminate;
-      eapply IH; [|exact Hr]; exact (step_dn _ _ _ ltac:(discriminate) Es)).
-    cbn in Hr. inversion Hr; subst. apply H0; reflexivity.
+  - assert (Hd : st = LDone \/ st <> LDone) by (destruct st; auto; right; discriminate).
+    destruct Hd as [->|Hn].
+    + rewrite run_done in Hr. inversion Hr; subst. apply H0; reflexivity.
+    + rewrite (run_S _ _ _ Hn) in Hr.
+      destruct (step uni_letter uni_digit inp ilen base st l) as [[st' l1]| | | | |] eqn:Es; cbn [bind] in Hr; try discriminate.
+      eapply IH; [|exact Hr]. exact (step_dn _ _ _ Hn Es).
 Qed.
 End Final.
 
